@@ -25,3 +25,16 @@ func (r *rng) chance(num, den int) bool { return r.intn(den) < num }
 func (r *rng) fork() *rng { return &rng{s: r.next()} }
 
 func pick[T any](r *rng, xs []T) T { return xs[r.intn(len(xs))] }
+
+// perm: a random permutation of 0..n-1
+func (r *rng) perm(n int) []int {
+	p := make([]int, n)
+	for i := range p {
+		p[i] = i
+	}
+	for i := n - 1; i > 0; i-- {
+		j := r.intn(i + 1)
+		p[i], p[j] = p[j], p[i]
+	}
+	return p
+}
